@@ -295,7 +295,7 @@ class MQTTBaseProtocol(Protocol):
         self._cleanStart = True # No session by default
         self._pingReq       = PINGREQ() 
         self._pingReq.timer = None
-        self._pingReq.alarm = None
+        self._pingReq.alarms = []   # PINGRESP deadlines, oldest first
         self._pingReq.pdu   = self._pingReq.encode()    # reuses the same PDU over and over again
         self.onDisconnection = None # callback to be invoked
 
@@ -645,9 +645,9 @@ class MQTTBaseProtocol(Protocol):
         Handles PINGRESP packet from the server
         '''
         log.debug("<== {packet:7}", packet="PINGRESP")
-        if self._pingReq.alarm:
-            self._pingReq.alarm.cancel()
-            self._pingReq.alarm = None
+        if self._pingReq.alarms:
+            # answers the oldest PINGREQ still waiting
+            self._pingReq.alarms.pop(0).cancel()
 
 
     # ---------------------------
@@ -714,10 +714,11 @@ class MQTTBaseProtocol(Protocol):
         '''
         def doPingError():
             log.warn("--- {packet:7} Timeout", packet="PINGREQ")
+            self._pingReq.alarms.pop(0)     # deadlines expire in the order they were set
             self.transport.abortConnection()
         log.debug("==> {packet:7}", packet="PINGREQ")
         self.transport.write(self._pingReq.pdu)
-        self._pingReq.alarm = self.callLater(self._pingReq.keepalive, doPingError)
+        self._pingReq.alarms.append(self.callLater(self._pingReq.keepalive, doPingError))
 
     # ------------------------------------------------------------------------
 
@@ -744,9 +745,8 @@ class MQTTBaseProtocol(Protocol):
         if self._pingReq.timer:
             self._pingReq.timer.stop()
             self._pingReq.timer = None
-        if self._pingReq.alarm:
-            self._pingReq.alarm.cancel()
-            self._pingReq.alarm = None
+        while self._pingReq.alarms:
+            self._pingReq.alarms.pop().cancel()
 
     # --------------
     # Helper methods
